@@ -997,7 +997,7 @@ impl Property for C16 {
     }
     fn generate(&self, rng: &mut Rng, _case: u64) -> Scenario {
         let mut files = vec![];
-        let mut proj = Project { dir: "p0".into(), name: if rng.chance(30) { Some("root".into()) } else { None }, imports: vec![], targets: vec![], raw_yaml: None };
+        let mut proj = Project { dir: "p0".into(), name: if rng.chance(30) { Some("root".into()) } else { None }, imports: vec![], targets: vec![], raw_yaml: None, import_paths: Default::default() };
         let n = rng.range(1, 3);
         for i in 0..n {
             let name = format!("t{}", i);
